@@ -11,6 +11,7 @@ dispatching via attribute access.
 
 from __future__ import annotations
 
+import math
 from typing import Any, Callable, Mapping, Sequence, Union
 
 import onnx_ir as ir
@@ -45,6 +46,17 @@ _PYTHON_TYPE_TO_DTYPE: dict[type, ir.DataType] = {
     int: ir.DataType.INT64,
     float: ir.DataType.FLOAT,
 }
+
+
+def _constant_cache_key(value: Any) -> Any:
+    """Return a hashable key for a Python scalar that keeps 0.0 and -0.0 apart.
+
+    ``0.0 == -0.0`` (and ``0 == -0.0``) in Python, so keying the constant cache on the
+    value alone would hand out the tensor of one for the other.
+    """
+    if isinstance(value, float):
+        return (value, math.copysign(1.0, value))
+    return value
 
 
 def _type_suffix(element_type: type) -> str:
@@ -611,7 +623,7 @@ class GraphBuilder(BuilderBase):
         if isinstance(value, (int, float, bool, str)):
             if dtype is None:
                 dtype = _PYTHON_TYPE_TO_DTYPE.get(type(value))
-            cache_key = (value, dtype)
+            cache_key = (_constant_cache_key(value), dtype)
             if cache_key in root._constant_cache:
                 return root._constant_cache[cache_key]
             type_suffix = _dtype_suffix(dtype) if dtype is not None else ""
@@ -628,7 +640,7 @@ class GraphBuilder(BuilderBase):
         ):
             if dtype is None:
                 dtype = _PYTHON_TYPE_TO_DTYPE.get(type(value[0]))
-            cache_key = (tuple(value), dtype)
+            cache_key = (tuple(_constant_cache_key(v) for v in value), dtype)
             if cache_key in root._constant_cache:
                 return root._constant_cache[cache_key]
             type_suffix = _dtype_suffix(dtype) if dtype is not None else ""
